@@ -618,7 +618,7 @@ PROPS = {
     "C12": {
         "level": "proof",
         "level_prefix": "Partial proof -- contracts discharged without bound on the mechanisms named below, not the whole statement (bounded stand-ins and what is left out are listed): ",
-        "units": ["rrsigdata", "nameorder", "keytag", "nameparse"],
+        "units": ["rrsigdata", "nameorder", "keytag", "nameparse", "dsdigest"],
         "extra_searches": [
             {"bin": "c12_search_rsa_keys", "crate": "replay_sign", "release": True,
              "what": "RSA keys: crypto::common::rsa_exponent_modulus (through which every RSA DNSKEY reaches the verifier) against RFC 3110 section 2 "
@@ -668,9 +668,13 @@ PROPS = {
                        "overflow, and for algorithm 1 it is the 16 bits before the last key octet (0 for keys shorter than three octets) with no "
                        "failing unwrap() or index; the same on the compiled code against an independent transcription of Appendix B (Kani, "
                        "bounded, key sizes stated). Timestamp ordering is covered by C17; the canonical name and RDATA orders the signer sorts by are "
-                       "covered by C04 (units nameorder, nsec3order); canonical RDATA per type by C05.",
-        "not_covered": "The cryptography (ring/openssl sign and verify: asm/FFI; modelled as 'a signature over exactly these octets'), DS "
-                       "digests, tamper rejection beyond what the native search samples, sign_rrset's own sort and the zone-level signing "
+                       "covered by C04 (units nameorder, nsec3order); canonical RDATA per type by C05. The DS digest (unit dsdigest, real text of "
+                       "<Dnskey as DnskeyExt>::digest; edit kind DESUGAR_WITH_INFALLIBLE turns each step of the with_infallible closure into "
+                       "an obligation 'cannot fail'): for SHA-1, SHA-256 and SHA-384 the hash the DS type names is taken over exactly "
+                       "canonical owner name | DNSKEY RDATA (RFC 4034 5.1.4), every other digest type is refused; the hash functions are a "
+                       "model (a context remembers its type and what it was fed, in order).",
+        "not_covered": "The cryptography (ring/openssl sign, verify and hash: asm/FFI; modelled as 'a signature / digest over exactly these "
+                       "octets'), tamper rejection beyond what the native search samples, sign_rrset's own sort and the zone-level signing "
                        "loops (sign_sorted_zone_records: key selection, skipping of glue and delegations). "
                        "In Dnskey::key_tag the expression u16::from_be_bytes(key[len-3..len-1].try_into().unwrap()) of the RSA/MD5 branch is "
                        "substituted by a model function (no Verus specification can be attached to from_be_bytes / try_into); the bounded "
